@@ -30,6 +30,37 @@ type Result struct {
 	Trace      []string          `json:"trace,omitempty"`
 	Tape       []uint32          `json:"tape,omitempty"`
 	Blocks     []BlockSpan       `json:"-"`
+	// All violations raised in the run, in order (capped). The reported one is the
+	// first that matches no known finding, so a known finding cannot mask another
+	// violation that happens later in the same run.
+	All []VInfo `json:"-"`
+}
+
+type VInfo struct {
+	Property, Oracle string
+	Attrs            map[string]string
+	Detail           string
+}
+
+// selectPrimary picks the violation the run is classified by.
+func selectPrimary(known []KnownFinding, res *Result) {
+	if res.Verdict != "violation" || len(res.All) == 0 {
+		return
+	}
+	pick := -1
+	for i, v := range res.All {
+		tmp := Result{Property: v.Property, Oracle: v.Oracle, Attrs: v.Attrs}
+		if matchKnown(known, &tmp) == "" {
+			pick = i
+			break
+		}
+	}
+	if pick < 0 {
+		pick = 0
+	}
+	v := res.All[pick]
+	res.Property, res.Oracle, res.Attrs, res.Detail = v.Property, v.Oracle, v.Attrs, v.Detail
+	res.Known = matchKnown(known, res)
 }
 
 // Run is the per-run context handed to a check.
@@ -81,6 +112,12 @@ func (r *Run) Violate(property, oracle string, attrs map[string]string, format s
 	r.mu.Lock()
 	defer r.mu.Unlock()
 	r.logLocked("VIOLATION %s %s %v: "+format, append([]any{property, oracle, attrsString(attrs)}, args...)...)
+	if r.res.Verdict == "infra" {
+		return
+	}
+	if len(r.res.All) < 16 {
+		r.res.All = append(r.res.All, VInfo{property, oracle, attrs, fmt.Sprintf(format, args...)})
+	}
 	if r.res.Verdict != "ok" {
 		return
 	}
